@@ -118,7 +118,23 @@ func runAnalysisProp(prop string, r *Rng, n int, tier string) {
 				prefix = seedQueries(s) // other queries of the package come first
 			}
 		}
+		if i%5 == 4 && prop != "C03" {
+			var ddl string
+			q, ddl = genExtraStmt(r, s, i)
+			schema += ddl
+			mustModel = ""
+		}
+		var gone [][2]string
+		if (prop == "C10" || prop == "C05") && engine == "postgresql" && i%7 == 3 {
+			var ddl string
+			ddl, gone = multiActionAlter(r, s, q.SQL)
+			schema += ddl
+		}
 		res := analyzeStatement(engine, schema, q.Text(), false)
+		if gone != nil {
+			// what the migration removed, stated by the generator: the spec does not take sqlc's word for it
+			res.In["gone"] = gone
+		}
 		res.In["stmt"] = q.SQL
 		res.In["cmd"] = q.Cmd
 		res.In["nparams"] = q.NParams
